@@ -186,6 +186,12 @@ def dict_put(d, k, v):
     return r
 
 
+def added(s):
+    """The elements added to a growing set so far, as a list (symbolically: the insertion sequence the set is
+    modelled by; natively: its elements in arbitrary order). For loop invariants only."""
+    return list(s)
+
+
 def ih(lemma_fn, *args):
     """Inside a lemma proved by induction: the induction hypothesis at structurally smaller arguments
     (first argument must be a strictly shorter sequence / smaller non-negative int). Natively a no-op."""
